@@ -29,7 +29,8 @@ RULE = (
     'create Entity/Solid/Side/VisGroup/EntityGroup with desired id in {-1, 0, negative, small, id of a live object}, copy() '
     'within / across maps with and without des_id, remove, re-add, drop the harness reference, gc.collect(), grab a reachable '
     'object, nodeid set/del/pop, fixup set/del/clear/setdefault/construction from FixupValue lists, collapse_one of a '
-    'generated preserve_ids=True template.  After every command ids of all objects reachable from the maps are checked per kind.  '
+    'generated preserve_ids=True template, constructor / parse calls that are rejected with the documented ValueError (Side '
+    'with != 3 points, Side/Solid/Entity.parse failing part-way) followed by further allocations.  After every command ids of all objects reachable from the maps are checked per kind.  '
     'Non-trivial = the history frees an id (remove / last reference dropped / nodeid or fixup deleted) and allocates one '
     'of that kind afterwards, or parses a tree with colliding / missing / non-positive ids, or builds fixups from a list '
     'with duplicate or non-positive indexes, or collapses a non-empty template; distinct = sha1 of the descriptor JSON'
@@ -41,6 +42,8 @@ ASSUMPTIONS = [
     'nodeid values that do not parse as int are ignored; fixup variable names are non-empty',
     'object lifetime = CPython reference counting plus the explicit gc commands (automatic GC disabled during a case)',
     'entity classes used in collapse_one exist in the shipped FGD database',
+    'rejected constructor calls are only those vmf.py rejects itself with ValueError (Side with != 3 points; parse of a plane '
+    'without 3 points, an unknown block or a group block outside worldspawn); "Exception ignored in __del__" noise is not judged',
 ]
 LEVEL_TEXT = ('Generated-input search: thousands (quick) to hundreds of thousands (thorough) of allocation / removal / GC / copy / '
               'parse / collapse histories per family, uniqueness and positivity of ids checked after every command and in the exported '
@@ -63,11 +66,12 @@ COLLAPSE_CLASSES = ['info_target', 'func_brush', 'info_node', 'logic_relay']
 FAMILIES: dict[str, list[str]] = {
     # allocation of every kind with desired ids, copies, last-reference drops (no entity removal: that is 'recycle')
     'alloc': ['new_ent', 'new_ent', 'new_solid', 'new_solid', 'new_side', 'new_vis', 'new_group', 'copy', 'copy', 'copy',
-              'detach', 'reattach', 'drop', 'drop', 'gc', 'grab'],
+              'detach', 'reattach', 'drop', 'drop', 'gc', 'grab', 'bad_side', 'bad_parse'],
     # entities: remove, drop, gc, create again, re-add
     'recycle': ['new_ent', 'new_ent', 'new_ent', 'remove_ent', 'remove_ent', 'drop', 'drop', 'gc', 'reattach', 'copy', 'grab'],
     # maps that come from VMF.parse of documents with bad ids
-    'parse': ['new_ent', 'new_solid', 'new_side', 'new_vis', 'new_group', 'copy', 'grab', 'grab', 'detach', 'drop', 'gc'],
+    'parse': ['new_ent', 'new_solid', 'new_side', 'new_vis', 'new_group', 'copy', 'grab', 'grab', 'detach', 'drop', 'gc',
+              'bad_side', 'bad_parse'],
     # node ids (judged: node ids only)
     'nodeid': ['new_node', 'new_node', 'new_node', 'set_node', 'set_node', 'del_node', 'remove_ent', 'remove_ent', 'reattach',
                'copy', 'grab', 'drop', 'gc'],
@@ -78,7 +82,7 @@ FAMILIES: dict[str, list[str]] = {
     'collapse': ['new_ent', 'new_solid', 'new_vis', 'collapse', 'collapse', 'collapse', 'grab', 'detach', 'drop', 'copy'],
     'mixed': ['new_ent', 'new_ent', 'new_solid', 'new_side', 'new_vis', 'new_group', 'new_node', 'new_fix', 'copy', 'copy',
               'detach', 'remove_ent', 'remove_ent', 'reattach', 'drop', 'drop', 'gc', 'grab', 'set_node', 'del_node',
-              'fix_set', 'fix_del', 'collapse'],
+              'fix_set', 'fix_del', 'collapse', 'bad_side', 'bad_parse'],
 }
 JUDGE = {
     'alloc': ('ent', 'solid', 'side', 'vis', 'group'),
@@ -230,6 +234,7 @@ class World:
         self.flags: set[str] = set()
         self.nontrivial = False
         self.freed: set[str] = set()    # kinds of which an id was released earlier in the history
+        self.failed_ctor = False        # a constructor / parse call was rejected earlier in the history
         self.last_op = ''
         self.n_collapse = 0
 
@@ -243,6 +248,9 @@ class World:
         self.freed.add(kind)
 
     def note_alloc(self, kind: str) -> None:
+        if self.failed_ctor:
+            self.flag('failed_ctor_then_alloc')
+            self.nontrivial = True
         if kind in self.freed:
             self.flag('alloc_after_free:' + kind)
             self.nontrivial = True
@@ -544,6 +552,73 @@ def op_new_side(w: World, a, b, c, d, e):
         if i >= 0:
             w.pool[i][1].sides.append(side)
             w.log(f'p{i}.sides.append(p{me})')
+
+
+def op_bad_side(w: World, a, b, c, d, e):
+    """A constructor call that is rejected with the documented ValueError ("Must have only 3 planes!")."""
+    from srctools import Vec
+    from srctools.vmf import Side
+    mi = a % 2
+    vmf = w.maps[mi]
+    n = [2, 4, 0, 1][b % 4]
+    des = desired(w, vmf, 'side', c)
+    pts = [Vec(k, 0, 0) for k in range(n)]
+    # The half-made Side has no .id yet, so its __del__ prints "Exception ignored ... AttributeError"; that noise is not
+    # judged (only what happens to the ids afterwards is) and is kept off stderr.
+    import sys
+    hook = sys.unraisablehook
+    sys.unraisablehook = lambda unraisable: None
+    try:
+        try:
+            Side(vmf, pts, des)
+        except ValueError:
+            w.log(f'Side(m{mi}, <{n} points>, {des})  -> ValueError (rejected)')
+        else:
+            w.fail('bad_side_accepted', f'Side(m{mi}, <{n} points>) did not raise ValueError')
+    finally:
+        sys.unraisablehook = hook
+    del pts
+    w.failed_ctor = True
+    w.flag('failed_ctor:side')
+
+
+def op_bad_parse(w: World, a, b, c, d, e):
+    """Side/Solid/Entity.parse of a tree that is rejected with ValueError after some sub-objects were already made."""
+    from srctools.keyvalues import Keyvalues as KV
+    from srctools.vmf import Entity, Side, Solid
+    mi = a % 2
+    vmf = w.maps[mi]
+
+    def idkv(n: int) -> list:
+        v = DOC_IDS[n % len(DOC_IDS)]
+        return [] if v is None else [KV('id', v)]
+
+    def side(n: int, good: bool):
+        return KV('side', idkv(n) + [KV('plane', '(0 0 0) (16 0 0) (0 16 0)' if good else '(0 0 0) (16 0 0)'),
+                                     KV('material', 'tools/toolsnodraw')])
+    kind = b % 4
+    if kind == 0:
+        call, tree, txt = Side.parse, side(c, False), 'Side.parse(<plane with 2 points>)'
+    elif kind == 1:
+        tree = KV('solid', idkv(c) + [side(d, True), side(e, True), side(d + 1, False)])
+        call, txt = Solid.parse, 'Solid.parse(<2 good sides, then a plane with 2 points>)'
+    else:
+        bad = KV('bogus_block', [KV('a', 'b')]) if kind == 2 else KV('group', idkv(e) + [KV('editor', [])])
+        tree = KV('entity', idkv(c) + [KV('classname', 'func_brush'),
+                                       KV('solid', idkv(d) + [side(e, True), side(e + 1, True)]), bad])
+        call = Entity.parse
+        txt = f'Entity.parse(<a good solid, then a {"bogus_block" if kind == 2 else "group"} block>)'
+    try:
+        call(vmf, tree)
+    except ValueError:
+        w.log(f'{txt} on m{mi}  -> ValueError (rejected)')
+    else:
+        w.fail('bad_parse_accepted', f'{txt} did not raise ValueError')
+    del tree, call
+    w.failed_ctor = True
+    w.flag('failed_ctor:' + ['side_parse', 'solid_parse', 'ent_parse', 'ent_parse'][kind])
+    for k in ('side', 'solid'):
+        w.note_free(k)
 
 
 def op_new_vis(w: World, a, b, c, d, e):
@@ -979,6 +1054,7 @@ OPS = {
     'drop': op_drop, 'gc': op_gc, 'grab': op_grab, 'new_node': op_new_node, 'set_node': op_set_node, 'del_node': op_del_node,
     'new_fix': op_new_fix, 'fix_set': op_fix_set, 'fix_del': op_fix_del, 'fix_clear': op_fix_clear,
     'fix_default': op_fix_default, 'fix_many': op_fix_many, 'collapse': op_collapse,
+    'bad_side': op_bad_side, 'bad_parse': op_bad_parse,
 }
 
 
@@ -1064,17 +1140,20 @@ def _sub(name: str, quick: int, thorough: int, floor: int, must_hit) -> Sub:
 SUBCHECKS = [
     _sub('alloc', 700, 24000, 50, ('alloc_after_free:solid', 'alloc_after_free:side', 'desired_live_id', 'cross_map_copy',
                                    'copy_with_des_id', 'copy:ent', 'copy:solid', 'copy:side', 'copy:vis', 'copy:group',
-                                   'drop_unreachable:solid', 'reattach:solid')),
+                                   'drop_unreachable:solid', 'reattach:solid', 'failed_ctor_then_alloc',
+                                   'failed_ctor:side', 'failed_ctor:solid_parse', 'failed_ctor:ent_parse')),
     _sub('recycle', 700, 24000, 50, ('alloc_after_free:ent', 'remove_ent_inmap', 'drop_unreachable:ent', 'reattach:ent',
                                      'op:gc')),
-    _sub('parse', 400, 14000, 50, ('parsed_colliding_ids', 'parsed_fixups', 'parsed_nodeid', 'grab:ent', 'grab:solid')),
+    _sub('parse', 400, 14000, 50, ('parsed_colliding_ids', 'parsed_fixups', 'parsed_nodeid', 'grab:ent', 'grab:solid',
+                                   'failed_ctor_then_alloc')),
     _sub('nodeid', 500, 14000, 50, ('alloc_after_free:node', 'del_node', 'set_node_attached', 'set_node_detached',
                                     'reattach:ent')),
     _sub('fixup', 500, 14000, 50, ('alloc_after_free:fixup', 'fixup_list_duplicate_index', 'fixup_list_nonpositive_index',
                                    'fix_del', 'fixup_over_100')),
     _sub('collapse', 400, 10000, 50, ('collapse_nonempty', 'collapse_twice', 'collapse_visgroup:True',
                                       'collapse_visgroup:False', 'collapse_visgroup:object')),
-    _sub('mixed', 800, 24000, 50, ('alloc_after_free:ent', 'parsed_colliding_ids', 'collapse_nonempty', 'drop_unreachable:ent')),
+    _sub('mixed', 800, 24000, 50, ('alloc_after_free:ent', 'parsed_colliding_ids', 'collapse_nonempty', 'drop_unreachable:ent',
+                                   'failed_ctor_then_alloc')),
 ]
 
 MATCHERS = {}
